@@ -162,8 +162,9 @@ class _Parser(Generic[EXPR]):
         operands = [first_operand]
 
         def parse_mandatory_operand_and_append():
-            next_operand = self.parse_w_maybe_infix_ops(_NEXT_EXPR_ON_ANY_LINE,
-                                                        infix_ops_levels)
+            next_operand = self.parse_w_maybe_infix_ops(
+                _IS_INSIDE_PARENTHESES if is_inside_parens else _NEXT_EXPR_ON_ANY_LINE,
+                infix_ops_levels)
             operands.append(next_operand)
 
         parse_mandatory_operand_and_append()
@@ -229,7 +230,7 @@ class _Parser(Generic[EXPR]):
 
     def consume_mandatory_end_parentheses(self) -> None:
         self.parser.consume_mandatory_constant_string_that_must_be_unquoted_and_equal(
-            [')', ] + self._infix_op_names(),
+            [')', ],
             lambda x: None,
             'Expression inside ( )',
         )
